@@ -152,7 +152,13 @@ def _run_one(args):
         return {"id": case["id"], "crash": "%s\n%s" % (e, traceback.format_exc()[-2000:])}
     finally:
         shutil.rmtree(out, ignore_errors=True)
-    tr = synthwiki.to_trace(case, r)
+    if r["hang"]:
+        return {"id": case["id"], "status": r["status"], "error": r["error"], "hang": True, "trace": {"ev": []},
+                "nreq": len(r["requests"]), "nev": 0, "stderr": r["stderr"][-1500:], "leak": []}
+    try:
+        tr = synthwiki.to_trace(case, r)
+    except synthwiki.HarnessMismatch as e:
+        return {"id": case["id"], "crash": "harness does not fit the code under test: %s" % e}
     return {"id": case["id"], "status": r["status"], "error": r["error"], "hang": r["hang"], "trace": tr,
             "nreq": len(r["requests"]), "nev": len(tr["ev"]), "stderr": r["stderr"][-1500:],
             "leak": sorted(r.get("leaked_title_mapping", {}).items())}
